@@ -344,6 +344,51 @@ def run_literals(rep):
     rep.merge(part.result())
 
 
+# ---- postfix chains on process sets: P(a, b, c).member - the arguments index the set in the order they are written -------------
+def run_process_lookups(rep):
+    import itertools
+    part = engine.Part()
+    w = engine.worker("fast")
+    T = xmlgen.template("T", params="const int[0,1] u, const int[0,2] v, const int[0,3] k", decl="int x; int arr[2]; struct { int f; } st;",
+                        locations=[xmlgen.location("id0", "L0")], init="id0")
+    doc = xmlgen.nta("const int c0 = 0; const int c1 = 1; int gi;", [T],
+                     "R(const int[0,1] u2, const int[0,2] v2) = T(u2, v2, c1);\nQ1(const int[0,1] u3) = T(u3, 1, 2);\nsystem T, R, Q1;")
+    ARGS = {"0": "(CONSTANT:INT 0)", "1": "(CONSTANT:INT 1)", "c0": "(IDENTIFIER c0)", "c1": "(IDENTIFIER c1)",
+            "1 - 1": "(MINUS (CONSTANT:INT 1) (CONSTANT:INT 1))", "c0 + 1": "(PLUS (IDENTIFIER c0) (CONSTANT:INT 1))"}
+    MEMBERS = {".x == 0": "(EQ (DOT:3 %s) (CONSTANT:INT 0))", ".arr[1] == 0": "(EQ (ARRAY (DOT:4 %s) (CONSTANT:INT 1)) (CONSTANT:INT 0))",
+               ".st.f == 0": "(EQ (DOT:0 (DOT:5 %s)) (CONSTANT:INT 0))", ".L0": "(DOT:6 %s)"}
+    items, exp = [], []
+    for name, arity in (("T", 3), ("R", 2), ("Q1", 1)):
+        for combo in itertools.product(ARGS, repeat=arity):
+            look = "(IDENTIFIER %s)" % name
+            for a in combo:
+                look = "(ARRAY %s %s)" % (look, ARGS[a])
+            for m, mt in MEMBERS.items():
+                items.append("E<> %s(%s)%s" % (name, ", ".join(combo), m))
+                exp.append("(EF %s)" % (mt % look))
+    for k in range(0, len(items), 300):
+        req = {"op": "queries", "ctx": {"kind": "xml", "text": doc}, "items": items[k:k + 300]}
+        r = w.call_safe(req, timeout=120)
+        if r.get("died"):
+            engine.check_crash(part, PID, r, "process lookups", req)
+            continue
+        if r["ctx"]["errors"] or r["ctx"]["exc"]:
+            raise RuntimeError("C02 generator bug: process-set model rejected: %s" % str(r["ctx"])[:300])
+        for q, e, qr in zip(items[k:k + 300], exp[k:k + 300], r["results"]):
+            part.count()
+            part.nontrivial_case("process-lookup:" + q)
+            rp = dict(req, items=[q], expected=e)
+            if qr.get("sexpr") is None or qr.get("err"):
+                part.outcome("process-lookup-rejected")
+                part.violation("process-lookup-rejected:%s" % q.split("(")[0][4:], "`%s` is not accepted: %s" % (q, qr.get("err")), rp)
+            elif qr["sexpr"] != e:
+                part.outcome("process-lookup-tree-mismatch")
+                part.violation("process-lookup-tree:%s:arity%d" % (q.split("(")[0][4:], q.count(",") + 1), "`%s` parses to %s, expected %s" % (q, qr["sexpr"], e), rp)
+            else:
+                part.outcome("process-lookup-tree-ok")
+    rep.merge(part.result())
+
+
 def main():
     rep = engine.Report(PID, "exploration",
                         "abstract expression trees over the full operator set (25 binary incl. aliases, 12 assignment, 6 prefix, "
@@ -365,6 +410,7 @@ def main():
     for res in engine.pmap(run_statements, [(i, engine.ncpu()) for i in range(engine.ncpu())]):
         rep.merge(res)
     run_literals(rep)
+    run_process_lookups(rep)
     rep.assumptions = ["reference R1 (lib/exprgen.py) is an independent transcription of the UPPAAL operator table",
                        "?: and the assignment family are one right-associative group (C++ reading): an assignment as the else "
                        "operand needs no parentheses, an inline-if as the left operand of an assignment does; quantifier operands "
